@@ -206,10 +206,37 @@ def gen_files(tooldir):
     return {"RegexSrc.v": "\n".join(rs) + "\n", "EnvGen.v": "\n".join(ev) + "\n"}
 
 
+def self_config_file(tooldir):
+    """Gen/SelfConfig.v: the repository's own configuration (internal/gontainer/gontainer.yaml + gontainer_*.yaml) as decoded by
+    yaml.v3 through the real input structs, merged by the model at proof time"""
+    import glob as _glob
+    from . import build, model
+    d = os.path.join(build.REPO, "internal", "gontainer")
+    first = [os.path.join(d, "gontainer.yaml")]
+    rest = sorted(_glob.glob(os.path.join(d, "gontainer_*.yaml")))
+    files = [{"path": "internal/gontainer/" + os.path.basename(p), "content": open(p).read()} for p in first + rest]
+    spec = {"id": "self", "files": files, "patterns": ["internal/gontainer/gontainer.yaml", "internal/gontainer/gontainer_*.yaml"], "output": "out.go",
+            "flags": {}, "version": "", "build_info": "", "dump": False}
+    ob = build.gx_run(tooldir, [spec])[0]
+    order = []
+    for g in ob["globs"]:
+        order += sorted(m["clean"] for m in g.get("matches") or [])
+    terms = []
+    for pth in order:
+        fi = ob["files"][pth]
+        if "input" not in fi:
+            raise GenError("self configuration file %s does not decode" % pth)
+        terms.append("  (%s, %s)" % (lit(pth), model.input_term(fi["input"])))
+    return ("(* GENERATED from /repo/internal/gontainer/*.yaml (decoded by yaml.v3 through gxtool). DO NOT EDIT. *)\n"
+            "From GV Require Import Base.Str Model.Input.\n\n"
+            "Definition self_files : list (str * input) := [\n" + ";\n".join(terms) + "].\n")
+
+
 def write_gen(tooldir, gendir):
     os.makedirs(gendir, exist_ok=True)
     try:
         files = gen_files(tooldir)
+        files["SelfConfig.v"] = self_config_file(tooldir)
     except (GenError, KeyError) as e:
         files = {"EnvGen.v": "(* translation failed: %s *)\nFrom GV Require Import Base.Str.\nDefinition translation_failed : True := I I.\n" % e}
     for name, text in files.items():
